@@ -72,6 +72,11 @@ def build_data(levels, used_cats, seed, reps):
     return pd.DataFrame(data)
 
 
+def _dense(m):
+    a = m.toarray() if hasattr(m, "toarray") else (m.to_numpy() if hasattr(m, "to_numpy") else np.asarray(m))
+    return np.asarray(a, dtype=float)
+
+
 def rank(M):
     if M.size == 0:
         return 0
@@ -79,7 +84,7 @@ def rank(M):
     return int((s > 1e-8 * s[0]).sum()) if s[0] > 0 else 0
 
 
-def evaluate(terms, levels, encs, seed, ordering, cluster_by, reps0=2):
+def evaluate(terms, levels, encs, seed, ordering, cluster_by, reps0=2, prime=False, output="numpy", shuffle_index=False):
     """Returns (ok, details)."""
     from formulaic import Formula
 
@@ -88,16 +93,28 @@ def evaluate(terms, levels, encs, seed, ordering, cluster_by, reps0=2):
     exprs = {v: enc_expr(v, encs.get(v), levels.get(v, 1)) for v in used}
     tstr = [("1" if t == ["1"] else ":".join(exprs[v] for v in t)) for t in terms]
     f = Formula(tstr, _ordering=ordering)
+    if prime:
+        # a preceding call in the same process on data where the kinds are swapped (categorical variables numeric and
+        # vice versa): process-wide caches keyed by variable name would poison the real call
+        try:
+            import pandas as pd
+
+            sw = {v: ([float(i % 3) for i in range(6)] if v in CATS else [["p", "q", "r"][i % 3] for i in range(6)]) for v in used}
+            Formula(tstr, _ordering=ordering).get_model_matrix(pd.DataFrame(sw), context={}, output="numpy")
+        except Exception:
+            pass
     reps = reps0
     for _ in range(6):
         df = build_data(levels, used_cats, seed, reps)
-        kw = dict(context={}, output="numpy", cluster_by=cluster_by)
-        F_ = np.asarray(f.get_model_matrix(df, ensure_full_rank=False, **kw), dtype=float)
+        if shuffle_index:
+            df.index = np.random.default_rng(seed).permutation(len(df))
+        kw = dict(context={}, output=output, cluster_by=cluster_by)
+        F_ = _dense(f.get_model_matrix(df, ensure_full_rank=False, **kw))
         if len(df) >= 2 * max(F_.shape[1], 1):
             break
         reps *= 2
     mmx = f.get_model_matrix(df, ensure_full_rank=True, **kw)
-    X = np.asarray(mmx, dtype=float)
+    X = _dense(mmx)
     F_ = F_.reshape(len(df), -1)
     X = X.reshape(len(df), -1)
     rX, rF = rank(X), rank(F_)
@@ -124,10 +141,14 @@ def check_case(case) -> Outcome:
     out.label("ordering:" + case["ordering"], "cluster:" + str(case["cluster_by"]), "terms:%d" % len(terms))
     if any(levels.get(v, 2) == 1 for t in terms for v in t if v in CATS):
         out.label("one-level-factor")
-    ok, d = evaluate(terms, levels, encs, case["seed"], case["ordering"], case["cluster_by"])
+    extra = dict(prime=bool(case.get("prime")), output=case.get("output", "numpy"), shuffle_index=bool(case.get("shuffle_index")))
+    if extra["prime"]:
+        out.label("primed")
+    out.label("out:" + extra["output"])
+    ok, d = evaluate(terms, levels, encs, case["seed"], case["ordering"], case["cluster_by"], **extra)
     if not ok:
         # structural defects do not depend on the numeric draw: re-evaluate twice
-        again = [evaluate(terms, levels, encs, case["seed"] + 1000 * k, case["ordering"], case["cluster_by"], reps0=4) for k in (1, 2)]
+        again = [evaluate(terms, levels, encs, case["seed"] + 1000 * k, case["ordering"], case["cluster_by"], reps0=4, **extra) for k in (1, 2)]
         if all(not a[0] for a in again):
             what = "not-full-rank" if d["rank_X"] != d["ncols_X"] else "span-changed"
             out.fail(what, f"{d}", intercept=any(t == ["1"] for t in terms), ordering=case["ordering"], cluster=case["cluster_by"])
@@ -160,6 +181,9 @@ def gen():
             "seed": draw(st.integers(0, 10**6)),
             "ordering": draw(st.sampled_from(["none", "none", "degree", "sort"])),
             "cluster_by": draw(st.sampled_from(["none", "none", "numerical_factors"])),
+            "prime": draw(st.booleans()),
+            "output": draw(st.sampled_from(["numpy", "numpy", "pandas", "sparse"])),
+            "shuffle_index": draw(st.booleans()),
         }
 
     return strat()
